@@ -85,6 +85,14 @@ var fingerprints = []item{
 	{"roaring64", "Bitmap.WriteTo", ""}, {"roaring64", "Bitmap.ReadFrom", ""}, {"roaring64", "Bitmap.FromUnsafeBytes", ""},
 }
 
+var skeletons = []item{
+	{"", "ParHeapOr", "skeletonParHeapOr"},
+	{"", "ParAnd", "skeletonParAnd"},
+	{"", "ParOr", "skeletonParOr"},
+	{"", "appenderRoutine", "skeletonAppender"},
+	{"roaring64", "ParOr", "skeletonParOr64"},
+}
+
 type pkgInfo struct {
 	p     *packages.Package
 	funcs map[string]*ast.FuncDecl
@@ -188,6 +196,26 @@ func main() {
 		out.WriteString(src)
 		out.WriteString("\n")
 	}
+	fmt.Fprintln(&out, "/-! ### channel-protocol skeletons: goroutine starts, channel operations and closes in source order -/")
+	for _, f := range skeletons {
+		pi := infos[f.pkg]
+		fd := pi.funcs[f.name]
+		if fd == nil {
+			fmt.Fprintf(&out, "-- UNTRANSLATABLE skeleton %s.%s: not found\n", f.pkg, f.name)
+			continue
+		}
+		ev := skeleton(pi, fd)
+		fmt.Fprintf(&out, "def %s : List String := [\n", f.lean)
+		for i, e := range ev {
+			sep := ","
+			if i == len(ev)-1 {
+				sep = ""
+			}
+			fmt.Fprintf(&out, "  %q%s\n", e, sep)
+		}
+		fmt.Fprintln(&out, "]")
+	}
+	fmt.Fprintln(&out, "")
 	fmt.Fprintln(&out, "/-! ### source fingerprints (FNV-1a of the gofmt-normalised declaration) — informational, not obligations -/")
 	fmt.Fprintln(&out, "def fingerprints : List (String × String) := [")
 	var fps []string
@@ -618,4 +646,141 @@ func assigned(body *ast.BlockStmt, leanName string) bool {
 		return true
 	})
 	return found
+}
+
+// skeleton lists, in source order, the concurrency-relevant events of a function body.
+func skeleton(pi *pkgInfo, fd *ast.FuncDecl) []string {
+	var ev []string
+	isChan := func(e ast.Expr) bool {
+		t := pi.p.TypesInfo.TypeOf(e)
+		if t == nil {
+			return false
+		}
+		_, ok := t.Underlying().(*types.Chan)
+		return ok
+	}
+	name := func(e ast.Expr) string {
+		var b bytes.Buffer
+		printer.Fprint(&b, pi.p.Fset, e)
+		return b.String()
+	}
+	var walk func(n ast.Node)
+	walkList := func(l []ast.Stmt) {
+		for _, s := range l {
+			walk(s)
+		}
+	}
+	walk = func(n ast.Node) {
+		switch x := n.(type) {
+		case nil:
+		case *ast.BlockStmt:
+			if x != nil {
+				walkList(x.List)
+			}
+		case *ast.GoStmt:
+			ev = append(ev, "go "+name(x.Call.Fun))
+			if fl, ok := x.Call.Fun.(*ast.FuncLit); ok {
+				ev[len(ev)-1] = "go func{"
+				walk(fl.Body)
+				ev = append(ev, "}")
+			}
+		case *ast.SendStmt:
+			ev = append(ev, "send "+name(x.Chan))
+		case *ast.ExprStmt:
+			walk(x.X)
+		case *ast.AssignStmt:
+			for i, r := range x.Rhs {
+				if ce, ok := r.(*ast.CallExpr); ok {
+					if id, ok := ce.Fun.(*ast.Ident); ok && id.Name == "make" && len(ce.Args) >= 1 {
+						if _, ok := ce.Args[0].(*ast.ChanType); ok && i < len(x.Lhs) {
+							c := "0"
+							if len(ce.Args) > 1 {
+								c = name(ce.Args[1])
+							}
+							ev = append(ev, "make "+name(x.Lhs[i])+" cap="+c)
+							continue
+						}
+					}
+				}
+				if fl, ok := r.(*ast.FuncLit); ok && i < len(x.Lhs) {
+					ev = append(ev, "func "+name(x.Lhs[i])+"{")
+					walk(fl.Body)
+					ev = append(ev, "}")
+					continue
+				}
+				walk(r)
+			}
+		case *ast.UnaryExpr:
+			if x.Op == token.ARROW {
+				ev = append(ev, "recv "+name(x.X))
+			} else {
+				walk(x.X)
+			}
+		case *ast.CallExpr:
+			if id, ok := x.Fun.(*ast.Ident); ok && id.Name == "close" && len(x.Args) == 1 {
+				ev = append(ev, "close "+name(x.Args[0]))
+				return
+			}
+			if se, ok := x.Fun.(*ast.SelectorExpr); ok {
+				if se.Sel.Name == "Wait" || se.Sel.Name == "Done" || se.Sel.Name == "Add" {
+					if t := pi.p.TypesInfo.TypeOf(se.X); t != nil && strings.Contains(t.String(), "sync.WaitGroup") {
+						ev = append(ev, "wg."+se.Sel.Name)
+					}
+				}
+			}
+			for _, a := range x.Args {
+				walk(a)
+			}
+		case *ast.RangeStmt:
+			if isChan(x.X) {
+				ev = append(ev, "range "+name(x.X)+"{")
+			} else {
+				ev = append(ev, "for{")
+			}
+			walk(x.Body)
+			ev = append(ev, "}")
+		case *ast.ForStmt:
+			ev = append(ev, "for{")
+			walk(x.Body)
+			ev = append(ev, "}")
+		case *ast.SelectStmt:
+			ev = append(ev, "select{")
+			for _, c := range x.Body.List {
+				cc := c.(*ast.CommClause)
+				if cc.Comm == nil {
+					ev = append(ev, "default")
+				} else {
+					walk(cc.Comm)
+				}
+				walkList(cc.Body)
+			}
+			ev = append(ev, "}")
+		case *ast.IfStmt:
+			walk(x.Init)
+			walk(x.Body)
+			if x.Else != nil {
+				walk(x.Else)
+			}
+		case *ast.ReturnStmt:
+			ev = append(ev, "return")
+		case *ast.DeferStmt:
+			ev = append(ev, "defer")
+			walk(x.Call)
+		case *ast.DeclStmt, *ast.IncDecStmt, *ast.BranchStmt, *ast.EmptyStmt, *ast.LabeledStmt, *ast.SwitchStmt, *ast.TypeSwitchStmt:
+		}
+	}
+	walk(fd.Body)
+	// drop empty for{ } pairs (loops without any event) to keep the skeleton readable
+	changed := true
+	for changed {
+		changed = false
+		for i := 0; i+1 < len(ev); i++ {
+			if ev[i] == "for{" && ev[i+1] == "}" {
+				ev = append(ev[:i], ev[i+2:]...)
+				changed = true
+				break
+			}
+		}
+	}
+	return ev
 }
